@@ -23,6 +23,7 @@ def _alarm(signum, frame):
 FLIP = [0]      # orientation variant used by mk_graph (set per job): the definitions do not depend on how an edge is written
 
 
+_JOB_GRAPHS = {}   # id(graph description of the current job) -> (Graph object, description); cleared by _orient
 HIST = [False]  # history variant used by mk_graph: the Graph object is used for constraints while it is still being built
 
 
@@ -30,6 +31,7 @@ def _orient(job, explicit=None):
     """per-job variants.  explicit: the value this job passes for use_graph_primitive (None: the helper is called
     without it).  In every other job that passes the option, the configuration defaults are set to the OPPOSITE value:
     an explicit argument wins over cspuz.config, so the verdicts must not change."""
+    _JOB_GRAPHS.clear()
     FLIP[0] = job.get("flip", 0)
     HIST[0] = bool(job.get("hist", (job.get("id", 0) + job.get("flip", 0)) % 2))
     opposite = explicit is not None and bool(job.get("cfg_opposite", job.get("id", 0) % 2))
@@ -41,7 +43,12 @@ def mk_graph(g):
     """the real Graph object; with FLIP[0] = 1 every edge, with 2 every other edge is added as (larger, smaller).
     With HIST[0] the object is first used (on scratch solvers, with both encodings) when only half of its edges are
     there: a Graph is a container, what was asked about an earlier state of it must not leak into a later use."""
+    if id(g) in _JOB_GRAPHS:
+        # ONE Graph object per job, handed to the helper for every pattern of the job (as a caller who builds the
+        # graph of a board once does): a helper must leave the Graph it is given alone
+        return _JOB_GRAPHS[id(g)][0]
     G = cg.Graph(g["n"])
+    _JOB_GRAPHS[id(g)] = (G, g)
     half = (len(g["edges"]) + 1) // 2 if HIST[0] and len(g["edges"]) >= 2 else -1
     for i, (u, v) in enumerate(g["edges"]):
         if i == half:
@@ -293,9 +300,12 @@ def run_cycle(job):
         try:
             if obj["kind"] == "frame":
                 fr, ids = _edge_flags(s, obj, form)
+                before = [id(e) for e in fr]
                 ret = cg.active_edges_single_cycle(s, fr, use_graph_primitive=job.get("prim", False))
+                if [id(e) for e in fr] != before:
+                    why = "the frame handed to the constraint was modified by the call (its edges changed)"
                 if tuple(ret.shape) != (obj["h"] + 1, obj["w"] + 1):
-                    why = f"returned shape {ret.shape}"
+                    why = why or f"returned shape {ret.shape}"
                 _fix_ids(s, ids, bits)
                 passed = list(ret.flatten())
             else:
@@ -384,13 +394,18 @@ def digits_of(L, n, R):
 def _div_setup(s, job):
     obj, R = job["obj"], job["R"]
     n = obj["graph"]["n"]
-    roots = None if job["rootsopt"] == 0 else [None if r < 0 else r for r in job["roots"]]
+    # the caller's `roots` list is built once per job and handed over for every labeling (a caller solving many boards
+    # with the same roots does that): the helper must not depend on, or change, what it was given
+    if "_roots_obj" not in job:
+        roots = None if job["rootsopt"] == 0 else [None if r < 0 else r for r in job["roots"]]
+        if roots is not None and obj["kind"] == "grid":
+            roots = [None if r is None else (r // obj["w"], r % obj["w"]) for r in roots]
+        job["_roots_obj"] = roots
+    roots = job["_roots_obj"]
     if obj["kind"] == "grid":
         h, w = obj["h"], obj["w"]
         division = s.int_array((h, w), 0, R - 1)
         labs = list(division.flatten())
-        if roots is not None:
-            roots = [None if r is None else (r // w, r % w) for r in roots]
         cg.division_connected(s, division, R, roots=roots, allow_empty_group=job["allow_empty"])
     else:
         arr = s.int_array(n, 0, R - 1)
@@ -482,14 +497,20 @@ def run_groups(job):
             if obj["kind"] == "grid":
                 h, w = obj["h"], obj["w"]
                 if isinstance(gs, list):
-                    gs2 = [gs[y * w:(y + 1) * w] for y in range(h)]
+                    # the nested size list is the caller's: one object for every partition of the job
+                    if "_sizes2d" not in job:
+                        job["_sizes2d"] = [gs[y * w:(y + 1) * w] for y in range(h)]
+                    gs2 = job["_sizes2d"]
                     if job["form"] == "array":      # sizes as an IntArray2D of variables, holes left free
                         arr = s.int_array((h, w), 1, n)
                         for i, x in enumerate(gs):
                             if x is not None:
                                 s.ensure(arr[i // w, i % w] == x)
                         gs2 = arr
-                    gid = cg.division_connected_variable_groups(s, shape=(h, w), group_size=gs2)
+                    if (job.get("id", 0) // 2) % 2:      # the shape is inferred from the nested list / array
+                        gid = cg.division_connected_variable_groups(s, group_size=gs2)
+                    else:
+                        gid = cg.division_connected_variable_groups(s, shape=(h, w), group_size=gs2)
                 else:
                     gid = cg.division_connected_variable_groups(s, shape=(h, w), group_size=gs)
                 if tuple(gid.shape) != (h, w):
@@ -623,9 +644,13 @@ def run_cross(job):
         why = ""
         try:
             fr, pins = _cross_frame(s, h, w, job.get("frameform", "vars"), bits_of(p, m))
+            before = [id(e) for e in fr] + [id(e) for e in fr.all_edges()]
             passed, cross = _cross_call(s, fr, job, job.get("prim", False))
+            if [id(e) for e in fr] + [id(e) for e in fr.all_edges()] != before:
+                # the segments the caller goes on to constrain are no longer the ones it drew
+                why = "the frame handed to the constraint was modified by the call (its edges changed)"
             if tuple(passed.shape) != (h + 1, w + 1) or tuple(cross.shape) != (h + 1, w + 1):
-                why = f"returned shapes {passed.shape} {cross.shape}"
+                why = why or f"returned shapes {passed.shape} {cross.shape}"
             for v, b in pins:
                 s.ensure(v == b)
             pv, cv = list(passed.flatten()), list(cross.flatten())
